@@ -256,9 +256,51 @@ func c06Order(p *chk.Prog, r *chk.Report) {
 		x.Fail("reprocessAll:sort-call", f.Pos(), "no sort.Slice with a literal comparator before the handler loop")
 		return
 	}
-	x.Check("reprocessAll:loop-ranges-sorted-slice", loop.Pos(), f.SameExpr(loop.X, sc.Slice), "", "the handler loop does not range over the slice that was sorted")
+	// the ranged slice is the sorted one, itself or handed over through result variables / locals of an expanded helper
+	// (a nil list on the helper's error path aside)
+	var flows func(e ast.Expr, at chk.Site, depth int) bool
+	flows = func(e ast.Expr, at chk.Site, depth int) bool {
+		if f.SameExpr(e, sc.Slice) {
+			return true
+		}
+		id, isId := ast.Unparen(e).(*ast.Ident)
+		if !isId || depth <= 0 || f.IsNilLit(e) {
+			return false
+		}
+		vals, okv := g.ReachingValues(id, at)
+		if !okv || len(vals) == 0 {
+			return false
+		}
+		some := false
+		for _, v := range vals {
+			switch {
+			case v.Rhs == nil:
+				return false
+			case f.IsNilLit(v.Rhs):
+			case flows(v.Rhs, v.Def, depth-1):
+				some = true
+			default:
+				return false
+			}
+		}
+		return some
+	}
+	sameSlice := f.SameExpr(loop.X, sc.Slice)
+	if !sameSlice {
+		if xs := g.Find(func(n ast.Node) bool { return n == ast.Node(loop.X) }); len(xs) == 1 {
+			sameSlice = flows(loop.X, xs[0], 4)
+		}
+	}
+	x.Check("reprocessAll:loop-ranges-sorted-slice", loop.Pos(), sameSlice, "", "the handler loop does not range over the slice that was sorted")
 	ss := g.Find(func(n ast.Node) bool { return n == ast.Node(sc.Call) })
 	w := g.MustPass(chk.Site{}, func(n ast.Node) bool { return n == ast.Node(loop.X) }, false, func(n ast.Node) bool { return len(ss) == 1 && n == ss[0].Top })
+	if w.Found && len(ss) == 1 {
+		// decided again with the values set on the way: the path around the sort is the expanded helper's error path,
+		// which leaves before the loop
+		if xs := g.Find(func(n ast.Node) bool { return n == ast.Node(loop.X) }); len(xs) == 1 && g.Dominated(xs[0], chk.GEvent(func(n ast.Node) bool { return n == ss[0].Top })) {
+			w.Found = false
+		}
+	}
 	x.Check("reprocessAll:sorted-before-loop", loop.Pos(), len(ss) == 1 && !w.Found, "", "the handler loop can start before the services are sorted")
 	// the sorted slice is the complete list
 	x.Check("reprocessAll:sorted-slice-is-full-list", sc.Call.Pos(), definedBy(g, "L.Items")(sc.Slice) || f.MatchNew("L.Items", sc.Slice) != nil, "", "the sorted slice is not the listed services")
